@@ -34,7 +34,7 @@ ANCHORS = ["let", "HashedIterable.__iter__", "ResultQuantifier.evaluate", "Varia
            "symbolic_function", "Predicate.__new__", "CanBehaveLikeAVariable.__getattr__"]
 
 FAMILIES = [("single", 25), ("nested2", 15), ("core", 20), ("rich", 15), ("flat", 6), ("sub", 4), ("E1", 3), ("E2", 3),
-            ("forall", 3), ("msb", 3), ("rule", 2), ("match", 3)]
+            ("forall", 3), ("msb", 3), ("rule", 2), ("match", 3), ("literal", 4)]
 
 
 def plan(tier):
@@ -143,7 +143,61 @@ def construct_template(spec, lm):
         built = list(lm.LOG)
         res = [(r.tag, r.p.name) for r in q.evaluate()]
         return built, len(res)
+    if spec["template"] == "literal":
+        return literal_template(spec, lm, x, items)
     raise ValueError(spec["template"])
+
+
+class LoggedValue:
+    """a plain value whose truth value / length / iteration is user code"""
+
+    def __init__(self, log, n):
+        self.log, self.n = log, n
+
+    def __bool__(self):
+        self.log.append(("bool", "value", self.n))
+        return True
+
+    def __eq__(self, other):
+        return isinstance(other, LoggedValue) and other.n == self.n
+
+    def __hash__(self):
+        return hash(self.n)
+
+
+def literal_template(spec, lm, x, items):
+    """plain values and one-shot iterables written into a query as literals: nothing of them is consumed or asked while
+    the query is built, and a one-shot iterable given to flatten() still has its elements when the query runs"""
+    import random
+    from krrood.entity_query_language.entity import entity, flatten, in_, contains
+    from krrood.entity_query_language.quantify_entity import an
+    rng = random.Random(spec["tseed"])
+    kind = rng.choice(["flatten_gen", "in_gen", "eq_value", "in_values"])
+    vals = [rng.randint(0, 3) for _ in range(rng.randint(1, 5))]
+
+    def logged_iter():
+        for i, v in enumerate(vals):
+            lm.LOG.append(("pull", "lit", i))
+            yield v
+
+    expect = None
+    if kind == "flatten_gen":
+        q = an(entity(flatten(logged_iter())))
+        expect = list(vals)
+    elif kind == "in_gen":
+        q = an(entity(x, in_(x.a, logged_iter())))
+    elif kind == "eq_value":
+        q = an(entity(x, x.name == LoggedValue(lm.LOG, 1)))
+    else:
+        q = an(entity(x, in_(x.name, [LoggedValue(lm.LOG, 1), LoggedValue(lm.LOG, 2)])))
+    built = list(lm.LOG)
+    try:
+        res = list(q.evaluate())
+    except Exception:
+        return built, 0
+    if expect is not None and not built and list(res) != expect:
+        built = [("flatten of a one-shot iterable yielded", res, "instead of", expect)]
+    return built, len(res)
 
 
 def match_template_queries(spec, lm):
